@@ -46,6 +46,19 @@ def opt_method(d):
     return None
 
 
+RES_COMBINATORS = ("or_else", "and_then", "map", "map_err")
+
+
+def res_method(d):
+    if d is None:
+        return None
+    if d.startswith("core::result::Result<") or d.startswith("core::result::Result::<"):
+        m = tail(d)
+        if m in RES_COMBINATORS:
+            return m
+    return None
+
+
 def bool_method(d):
     if d is None:
         return None
@@ -585,6 +598,62 @@ class Rewriter:
         self.count += 1
         return True
 
+    def rewrite_result(self, bi, m):
+        """Result::or_else / and_then / map as the match they abbreviate"""
+        blk = self.blocks[bi]
+        t = blk["term"]
+        if t["t"] is None:
+            return False
+        sp = t["sp"]
+        dest = t["dest"]
+        T = t["t"]
+        a0 = t["args"][0]
+        pre = blk["stmts"]
+        o = self.local_of(a0)
+        if o is None:
+            if a0["k"] == "const":
+                return False
+            o = self.new_local("?")
+            pre.append(self.assign(o, self.use(a0), sp))
+        rty = self.ty(o)
+        if not rty.startswith("core::result::Result<"):
+            rty = "core::result::Result<?, ?>"
+        d = self.new_local("isize")
+        okx = self.new_local("?", "ok")
+        erx = self.new_local("?", "err")
+        okp = [{"dc": 0, "n": "Ok", "of": rty}, {"f": 0, "n": "0", "of": rty, "ty": "?"}]
+        erp = [{"dc": 1, "n": "Err", "of": rty}, {"f": 0, "n": "0", "of": rty, "ty": "?"}]
+
+        def mk(variant, vi, op):
+            return {"k": "agg", "ak": "adt", "adt": "core::result::Result", "variant": variant, "vi": vi, "targs": [], "fields": ["0"], "ops": [op]}
+        U = self.new_block([], {"k": "unreachable", "sp": sp})
+        OKB = self.new_block([self.assign(okx, self.use(self.cp(o, okp)), sp)], self.goto(T, sp))
+        ERB = self.new_block([self.assign(erx, self.use(self.cp(o, erp)), sp)], self.goto(T, sp))
+        cl = self.closure_local(t["args"][1], pre, sp)
+        y = self.new_local(self.closure_ret_ty(t["args"][1]))
+        if m == "or_else":
+            self.blocks[OKB]["stmts"].append(self.assign_pl(dest, mk("Ok", 0, self.mv(okx)), sp))
+            E2 = self.new_block([self.assign_pl(dest, self.use(self.mv(y)), sp)], self.goto(T, sp))
+            self.blocks[ERB]["term"] = self.closure_call(cl, [self.mv(erx)], y, E2, sp, self.blocks[ERB]["stmts"])
+        elif m == "and_then":
+            self.blocks[ERB]["stmts"].append(self.assign_pl(dest, mk("Err", 1, self.mv(erx)), sp))
+            O2 = self.new_block([self.assign_pl(dest, self.use(self.mv(y)), sp)], self.goto(T, sp))
+            self.blocks[OKB]["term"] = self.closure_call(cl, [self.mv(okx)], y, O2, sp, self.blocks[OKB]["stmts"])
+        elif m == "map_err":
+            self.blocks[OKB]["stmts"].append(self.assign_pl(dest, mk("Ok", 0, self.mv(okx)), sp))
+            E2 = self.new_block([self.assign_pl(dest, mk("Err", 1, self.mv(y)), sp)], self.goto(T, sp))
+            self.blocks[ERB]["term"] = self.closure_call(cl, [self.mv(erx)], y, E2, sp, self.blocks[ERB]["stmts"])
+        elif m == "map":
+            self.blocks[ERB]["stmts"].append(self.assign_pl(dest, mk("Err", 1, self.mv(erx)), sp))
+            O2 = self.new_block([self.assign_pl(dest, mk("Ok", 0, self.mv(y)), sp)], self.goto(T, sp))
+            self.blocks[OKB]["term"] = self.closure_call(cl, [self.mv(okx)], y, O2, sp, self.blocks[OKB]["stmts"])
+        else:
+            return False
+        pre.append(self.assign(d, {"k": "discr", "pl": self.pl(o), "of": rty}, sp))
+        blk["term"] = {"k": "switch", "discr": self.mv(d), "dty": "isize", "arms": [[0, OKB], [1, ERB]], "otherwise": U, "sp": sp}
+        self.count += 1
+        return True
+
     def rewrite_bool(self, bi, m):
         blk = self.blocks[bi]
         t = blk["term"]
@@ -649,6 +718,10 @@ class Rewriter:
                     if m and self.rewrite_bool(bi, m):
                         changed = True
                         break
+                    m = res_method(dn)
+                    if m and self.rewrite_result(bi, m):
+                        changed = True
+                        break
         return self.count
 
 
@@ -659,7 +732,7 @@ def desugar(j, raw_bodies, iters=True, options=True):
         t = blk["term"]
         if t["k"] == "call":
             dn = decl_of(t)
-            if is_iter_decl(dn, ITER_TERMINALS) or is_iter_decl(dn, ITER_ADAPTORS) or opt_method(dn) or bool_method(dn):
+            if is_iter_decl(dn, ITER_TERMINALS) or is_iter_decl(dn, ITER_ADAPTORS) or opt_method(dn) or bool_method(dn) or res_method(dn):
                 interesting = True
                 break
     if not interesting:
